@@ -8,9 +8,30 @@ inductive Cur
   | counter (goal : Int) (s : CState)
   | mask (im g : Nat) (bits : List Nat) (s : MState)
 
+def parseGuard : Char → Option Guard
+  | 'n' => some .none | 't' => some .t | 'f' => some .f | _ => none
+
+/-- `X:tT,nL`  data flow, deps (guard n|t|f)(source T = task | L = collection)
+    `K:f0,n3`  control flow, deps (guard)(0 = plain | k+1 = gather of k) -/
+def parseDataDep (w : String) : Option (Guard × Bool) :=
+  match w.toList with
+  | [g, 'T'] => (parseGuard g).map (·, false)
+  | [g, 'L'] => (parseGuard g).map (·, true)
+  | _ => none
+def parseCtlDep (w : String) : Option (Guard × Nat) :=
+  match w.toList with
+  | g :: rest => match parseGuard g, (String.ofList rest).toNat? with
+    | some g, some v => some (g, v)
+    | _, _ => none
+  | _ => none
+
 def parseFlow : String → Option FlowKind
   | "D" => some .data | "L" => some .localData | "C1" => some .ctl1 | "CN" => some .ctlNone | "W" => some .writeOnly
-  | s => if s.startsWith "G" then (s.drop 1).toString.toNat?.map .ctl else none
+  | s =>
+    if s.startsWith "G" then (s.drop 1).toString.toNat?.map .ctl
+    else if s.startsWith "X:" then (((s.drop 2).toString.splitOn ",").mapM parseDataDep).map .dataDeps
+    else if s.startsWith "K:" then (((s.drop 2).toString.splitOn ",").mapM parseCtlDep).map .ctlDeps
+    else none
 
 def pcName : Pc → String
   | .start => "start" | .cas => "cas" | .dec => "rmw" | .done b => if b then "done1" else "done0"
